@@ -55,6 +55,7 @@ func (s *sbuf) scribble() {
 type callArgs struct {
 	a, b  []byte
 	patch any
+	opts  any // shared options object (nil: fresh per call)
 }
 
 // invoke performs the API call and records everything observable about it.
@@ -94,7 +95,7 @@ func invoke(api API, c *Call, args callArgs) (o Outcome) {
 	case FnAccessors:
 		o.Extra = api.Describe(args.patch, true)
 	case FnApply, FnApplyIndent, FnApplyWithOptions, FnApplyIndentWithOptions:
-		setOut(api.Apply(args.patch, c.Fn, args.a, c.Opts, c.Indent))
+		setOut(api.Apply(args.patch, c.Fn, args.a, c.Opts, args.opts, c.Indent))
 	case FnMergePatch:
 		setOut(api.MergePatch(args.a, args.b))
 	case FnMergeMergePatches:
@@ -252,7 +253,12 @@ type runner struct {
 	w    *simrt.World
 	bufs []*sbuf
 	res  *RunResult
+
+	sharedOpts    map[Opts]any
+	sharedOptSnap map[Opts]string
 }
+
+func usesOpts(fn int) bool { return fn == FnApplyWithOptions || fn == FnApplyIndentWithOptions }
 
 const defaultBudget = 50_000_000
 
@@ -361,6 +367,12 @@ func (rn *runner) execCalls(ts *taskState, calls []Call, want []pristinePair) {
 				ts.probes["patch_reused"]++
 			}
 		}
+		if c.ShareOpts && usesOpts(c.Fn) {
+			if so := rn.sharedOpts[c.Opts]; so != nil {
+				args.opts = so
+				ts.probes["options_object_shared"]++
+			}
+		}
 		var src *simrt.Source
 		if sc.Replay {
 			src = simrt.ReplaySource(c.Tape, c.Switches, sc.Lenient)
@@ -437,6 +449,13 @@ func (rn *runner) execCalls(ts *taskState, calls []Call, want []pristinePair) {
 				ts.viol = append(ts.viol, Violation{Class: "patch-modified", Sig: sig("patch-modified", tname, fname), CallID: c.ID,
 					Detail: fmt.Sprintf("call #%d %s changed the Patch value:\nbefore:\n%s\nafter:\n%s", c.ID, fname, ts.slotSnap[c.Slot], s)})
 				ts.slotSnap[c.Slot] = s
+			}
+		}
+		// a shared options object is an input like any other: it must read the same afterwards
+		if args.opts != nil {
+			if snap := rn.api.OptionsSnapshot(args.opts); snap != rn.sharedOptSnap[c.Opts] {
+				ts.viol = append(ts.viol, Violation{Class: "options-modified", Sig: sig("options-modified", tname, fname), CallID: c.ID,
+					Detail: fmt.Sprintf("call #%d %s changed the ApplyOptions value it was given (shared with other calls): %s -> %s", c.ID, fname, rn.sharedOptSnap[c.Opts], snap)})
 			}
 		}
 		// caller reuses its private buffers
@@ -536,6 +555,23 @@ func Run(sc *Scenario) *RunResult {
 	rn.bufs = make([]*sbuf, len(sc.Bufs))
 	for i, b := range sc.Bufs {
 		rn.bufs[i] = newSbuf(b, sc.Cfg.SpareCap)
+	}
+	// shared options objects: one per distinct value, built before any task exists
+	rn.sharedOpts, rn.sharedOptSnap = map[Opts]any{}, map[Opts]string{}
+	addShared := func(calls []Call) {
+		for i := range calls {
+			c := &calls[i]
+			if c.ShareOpts && usesOpts(c.Fn) && rn.sharedOpts[c.Opts] == nil {
+				if o := api.NewOptions(c.Opts); o != nil {
+					rn.sharedOpts[c.Opts] = o
+					rn.sharedOptSnap[c.Opts] = api.OptionsSnapshot(o)
+				}
+			}
+		}
+	}
+	addShared(sc.Prelude)
+	for t := range sc.Tasks {
+		addShared(sc.Tasks[t])
 	}
 	raceBefore := simrt.RaceErrors()
 	simrt.Install(w)
